@@ -47,6 +47,12 @@ type c06eCase struct {
 	DownN    int    `json:"down_n"` // bytes the target sends
 	DownChk  int    `json:"down_chunk"`
 	VetoAt   int    `json:"veto_at"` // index of the LogTraffic call that returns false; -1: never
+	// "" = index over all LogTraffic calls; "up" / "down" = index over the calls of that direction only (tx > 0 / rx > 0),
+	// so that the veto hits the Up loop / the Down loop whatever the chunking of the relay's reads is
+	VetoDir string `json:"veto_dir"`
+	// configuration dimension: an EventLogger is configured on the server next to the TrafficLogger (server.go calls it
+	// between the return of the copy and the teardown: TCPError(addr, id, reqAddr, err))
+	EvLog bool `json:"evlog"`
 	Ua       uint64 `json:"ua"`
 	Ub       uint64 `json:"ub"`
 	Da       uint64 `json:"da"`
@@ -107,9 +113,53 @@ type c06eAuth struct{}
 
 func (c06eAuth) Authenticate(addr net.Addr, auth string, tx uint64) (bool, string) { return true, "u1" }
 
+// c06eEvents: a recording server.EventLogger
+type c06eEvents struct {
+	mu         sync.Mutex
+	connect    int
+	disconnect int
+	tcpReq     []string
+	tcpErr     []bool // per TCPError call (probes excluded): err != nil
+	discCh     chan struct{}
+	discOne    sync.Once
+}
+
+func (e *c06eEvents) Connect(addr net.Addr, id string, tx uint64) {
+	e.mu.Lock()
+	e.connect++
+	e.mu.Unlock()
+}
+func (e *c06eEvents) Disconnect(addr net.Addr, id string, err error) {
+	e.mu.Lock()
+	e.disconnect++
+	e.mu.Unlock()
+	e.discOne.Do(func() { close(e.discCh) })
+}
+func (e *c06eEvents) TCPRequest(addr net.Addr, id, reqAddr string) {
+	if reqAddr == c06eProbeAddr {
+		return
+	}
+	e.mu.Lock()
+	e.tcpReq = append(e.tcpReq, reqAddr)
+	e.mu.Unlock()
+}
+func (e *c06eEvents) TCPError(addr net.Addr, id, reqAddr string, err error) {
+	if reqAddr == c06eProbeAddr {
+		return
+	}
+	e.mu.Lock()
+	e.tcpErr = append(e.tcpErr, err != nil)
+	e.mu.Unlock()
+}
+func (e *c06eEvents) UDPRequest(addr net.Addr, id string, sessionID uint32, reqAddr string) {}
+func (e *c06eEvents) UDPError(addr net.Addr, id string, sessionID uint32, err error)      {}
+
 type c06eLogger struct {
 	mu      sync.Mutex
 	vetoAt  int
+	vetoDir string
+	dcalls  [2]int // calls per direction: 0 = up (tx > 0), 1 = down
+	vetoUp  bool   // direction of the vetoed chunk
 	calls   int
 	tx, rx  uint64 // approved totals
 	vetoed  bool
@@ -126,10 +176,24 @@ func (l *c06eLogger) LogTraffic(id string, tx, rx uint64) bool {
 	}
 	i := l.calls
 	l.calls++
-	if l.vetoAt >= 0 && i >= l.vetoAt {
+	d := 0
+	if rx > 0 {
+		d = 1
+	}
+	di := l.dcalls[d]
+	l.dcalls[d]++
+	hit := l.vetoAt >= 0 && i >= l.vetoAt
+	switch l.vetoDir {
+	case "up":
+		hit = l.vetoAt >= 0 && (l.vetoed || (d == 0 && di >= l.vetoAt))
+	case "down":
+		hit = l.vetoAt >= 0 && (l.vetoed || (d == 1 && di >= l.vetoAt))
+	}
+	if hit {
 		if !l.vetoed {
 			l.vetoed = true
 			l.vetoTx, l.vetoRx = tx, rx
+			l.vetoUp = d == 0
 		}
 		return false
 	}
@@ -273,11 +337,17 @@ func c06eRun(c c06eCase, res map[string]any) {
 		target.readyOne.Do(func() { close(target.ready) })
 	}
 	ob := &c06eOutbound{dialErr: c.DialErr, target: target, delay: time.Duration(c.DialDelay) * time.Millisecond}
-	logger := &c06eLogger{vetoAt: c.VetoAt}
+	logger := &c06eLogger{vetoAt: c.VetoAt, vetoDir: c.VetoDir}
 	cfg := &server.Config{TLSConfig: serverTLSConfig(), Conn: udpConn, Outbound: ob, Authenticator: c06eAuth{}}
 	if c.Logger {
 		cfg.TrafficLogger = logger
 	}
+	var events *c06eEvents
+	if c.EvLog {
+		events = &c06eEvents{discCh: make(chan struct{})}
+		cfg.EventLogger = events
+	}
+	res["evlog"] = c.EvLog
 	var hook *c06eHook
 	if c.Hook != nil {
 		hook = &c06eHook{h: *c.Hook}
@@ -555,8 +625,34 @@ func c06eRun(c c06eCase, res map[string]any) {
 			return
 		}
 	}
+	res["veto_up"] = logger.vetoUp
+	if events != nil {
+		// what the EventLogger was told about this request (coverage and the comparison with model/C06_Events.v)
+		time.Sleep(50 * time.Millisecond)
+		events.mu.Lock()
+		res["ev_tcp_req"], res["ev_tcp_err"], res["ev_connect"] = len(events.tcpReq), append([]bool{}, events.tcpErr...), events.connect
+		events.mu.Unlock()
+	}
+	if !vetoed {
+		// teardown of a relay that ended without a veto (server.go:337-343): target closed, stream ended (the client read
+		// EOF above), and the user's QUIC connection is NOT closed: a fresh request on it is served from request to EOF
+		select {
+		case <-target.closed:
+		case <-time.After(5 * time.Second):
+			fail("the relay ended (client read to the end of the stream) but the server did not close the target connection within 5 s")
+			return
+		}
+		perr := c06eProbe(cl)
+		res["alive_after"] = perr == nil
+		var ce coreErrs.ClosedError
+		if perr != nil && errors.As(perr, &ce) {
+			fail("no veto, yet the user's QUIC connection was closed after the relay ended (event logger %v): %v", c.EvLog, perr)
+			return
+		}
+	}
 	if vetoed {
-		// the user's QUIC connection must be gone
+		// the user's QUIC connection must be gone - whatever else is configured on the server (EventLogger present or
+		// absent), whichever direction the vetoed chunk belonged to
 		deadline := time.Now().Add(10 * time.Second)
 		closed := false
 		for time.Now().Before(deadline) {
@@ -586,8 +682,23 @@ func c06eRun(c c06eCase, res map[string]any) {
 		}
 		res["conn_closed"] = closed
 		if !closed {
-			fail("veto-ignored: the logger vetoed but the client's QUIC connection is still usable")
+			dir := "Down"
+			if logger.vetoUp {
+				dir = "Up"
+			}
+			fail("veto-ignored: the logger vetoed a chunk of the %s direction (event logger configured: %v, fast open %v) but 10 s later the client's QUIC connection is still usable: new Client.TCP calls on it are served", dir, c.EvLog, c.FastOpen)
 			return
+		}
+		if events != nil {
+			// server side of the same fact: the connection's handler returned and reported the disconnect
+			select {
+			case <-events.discCh:
+				res["ev_disconnect"] = true
+			case <-time.After(5 * time.Second):
+				res["ev_disconnect"] = false
+				fail("veto: the client saw its connection closed but the server reported no Disconnect event within 5 s")
+				return
+			}
 		}
 	}
 	res["ok"] = true
@@ -800,6 +911,31 @@ func c06eNoRead(c c06eCase, cl client.Client, conn net.Conn, ob *c06eOutbound, t
 	}
 	res["ok"] = true
 	res["why"] = ""
+}
+
+// c06eProbe: a fresh request on the same client, served from request to EOF by a target that has nothing to say
+func c06eProbe(cl client.Client) error {
+	pch := make(chan error, 1)
+	go func() {
+		pc, err := cl.TCP(c06eProbeAddr)
+		if err != nil {
+			pch <- err
+			return
+		}
+		defer pc.Close()
+		pc.SetReadDeadline(time.Now().Add(8 * time.Second))
+		_, err = pc.Read(make([]byte, 1))
+		if err == io.EOF {
+			err = nil
+		}
+		pch <- err
+	}()
+	select {
+	case err := <-pch:
+		return err
+	case <-time.After(10 * time.Second):
+		return errors.New("no answer within 10 s")
+	}
 }
 
 func isTimeout(err error) bool {
